@@ -155,12 +155,12 @@ def build(variant, quiet=True):
     return d
 
 
-def link_harness(variant, out, sources_c, extra_flags=(), wraps=(), extra_libs=(), cc=None, opt=("-O2",)):
+def link_harness(variant, out, sources_c, extra_flags=(), wraps=(), extra_libs=(), cc=None, opt=("-O2",), no_san=False):
     """Compile a harness against a variant's static objects."""
     d = build(variant)
     vcc, vflags = variant_flags(variant)
     cc = cc or vcc
-    san = [f for f in vflags if f.startswith("-fsanitize=")]
+    san = [] if no_san else [f for f in vflags if f.startswith("-fsanitize=")]
     cmd = [cc, "-pthread", "-g"] + list(opt) + san + include_flags() + ["-I" + os.path.join(VERIF, "harness"),
            "-I" + os.path.join(VERIF, "ref")] + list(extra_flags) + list(sources_c) + \
           [os.path.join(d, "libsodium.a")] + ["-Wl,--wrap=" + w for w in wraps] + list(extra_libs) + \
